@@ -105,4 +105,25 @@ theorem C19_repaired_wfuse_accepted :
       | .ok _ => true | .error _ => false) = true := by
   decide +kernel
 
+/-! ### C11: the property's own example, binary64 -/
+
+def s3 (a b c u : Float) : Simplex Float 3 := ⟨#v[a / 16.0, b / 16.0, c / 16.0], u / 16.0⟩
+def exYX : CondTab Float 2 3 := #v[s3 5 0 11 0, s3 6 6 4 0]
+def exYZ : CondTab Float 2 3 := #v[s3 5 5 3 3, s3 3 13 0 0]
+def exAX : Tab Float 2 := #v[9.0 / 16.0, 7.0 / 16.0]
+def exAZ : Tab Float 2 := #v[6.0 / 16.0, 10.0 / 16.0]
+def exAY : Tab Float 3 := #v[7.0 / 16.0, 5.0 / 16.0, 4.0 / 16.0]
+
+/-- C11 (pinned, binary64): the impossible joint cell (x0,z1) gets the absolutely certain opinion (u = 0). -/
+theorem C11_pinned_impossible_cell_certain :
+    (match Pinned.mergeCond2 false exYX exYZ exAX exAZ exAY with
+      | .ok t => decide ((t[1]).u == 0.0) && decide ((t[1]).b[0] == 1.0) | .error _ => false) = true := by
+  decide +kernel
+
+/-- C11 (repaired model, binary64): the same cell is vacuous, as in exact arithmetic. -/
+theorem C11_repaired_impossible_cell_vacuous :
+    (match mergeCond2 false exYX exYZ exAX exAZ exAY with
+      | .ok t => decide ((t[1]).u == 1.0) | .error _ => false) = true := by
+  decide +kernel
+
 end SLV.Props.Pinned
